@@ -237,6 +237,10 @@ func c17Fresh(kr *keyring) []string {
 
 var sharedOp *jwt.OperatorClaims
 
+// a shared account whose key set holds scopes an application put together by hand (no constructor: the kind, or the
+// scope's own key, left at the zero value)
+var sharedHand *jwt.AccountClaims
+
 // read-only queries on one shared object
 func c17Shared(ac *jwt.AccountClaims, uc *jwt.UserClaims, act *jwt.ActivationClaims) []string {
 	var out []string
@@ -248,6 +252,16 @@ func c17Shared(ac *jwt.AccountClaims, uc *jwt.UserClaims, act *jwt.ActivationCla
 		add("op spare=%q", sharedOp.SigningKeys[:cap(sharedOp.SigningKeys)][len(sharedOp.SigningKeys):])
 	}
 	add("string=%d", len(ac.String()))
+	if sharedHand != nil {
+		add("hand string=%d payload=%v", len(sharedHand.String()), reflect.TypeOf(sharedHand.Payload()))
+		hk := sharedHand.SigningKeys.Keys() // (in map order: sorted here)
+		sort.Strings(hk)
+		for _, k := range hk {
+			sc, ok := sharedHand.SigningKeys.GetScope(k)
+			add("hand scope %v %v contains=%v", ok, sc != nil, sharedHand.SigningKeys.Contains(k))
+		}
+		add("hand didsign=%v", sharedHand.DidSign(uc))
+	}
 	add("didsign=%v %v", ac.DidSign(uc), ac.DidSign(act))
 	add("revoked=%v", ac.IsClaimRevoked(uc))
 	add("has=%v", ac.Exports.HasExportContainingSubject("foo.bar"))
@@ -349,6 +363,14 @@ func runC17(c *Ctx) {
 		sharedOp.SigningKeys = append(sharedOp.SigningKeys, newSigner("operator").pub)
 	}
 	sharedOp.Tags.Add("x", "y", "z")
+	sharedHand = jwt.NewAccountClaims(kr.by["account"].pub)
+	{
+		k1, k2 := newSigner("account").pub, newSigner("account").pub
+		sharedHand.SigningKeys[k1] = &jwt.UserScope{Key: k1, Role: "kind left at zero"}
+		sharedHand.SigningKeys[k2] = &jwt.UserScope{Kind: jwt.UserScopeType, Role: "filed without a key of its own"}
+		sharedHand.SigningKeys.Add(newSigner("account").pub)
+	}
+	handBefore := canonString(reflect.ValueOf(sharedHand).Elem())
 	sharedU, _ := jwt.DecodeUserClaims(userTok)
 	sharedA, _ := jwt.DecodeActivationClaims(tokens["activation"])
 	baseShared := norm(c17Shared(shared, sharedU, sharedA))
@@ -519,6 +541,10 @@ func runC17(c *Ctx) {
 	c.sum.ImplChecks++
 	if after := canonString(reflect.ValueOf(shared).Elem()); after != sharedBefore {
 		c.violation("C17: read-only queries changed the shared claims object", map[string]interface{}{"diff": firstDiff(sharedBefore, after)})
+	}
+	c.sum.ImplChecks++
+	if after := canonString(reflect.ValueOf(sharedHand).Elem()); after != handBefore {
+		c.violation("C17: read-only queries (printing among them) changed the shared claims object whose scopes were built by hand", map[string]interface{}{"diff": firstDiff(handBefore, after)})
 	}
 	c.sample(map[string]interface{}{"worker_results_lines": len(strings.Split(base, "\n")), "first_lines": strings.Split(base, "\n")[:4], "shared_queries": strings.Split(baseShared, "\n")[:3]})
 	c.sum.DistinctNontriv = len(distinct)
